@@ -1,7 +1,7 @@
 (* models of the collection / string / conversion / maths builtins (repaired code, offset = 1 or 0) *)
 From Flocq Require Import Core BinarySingleNaN.
 Require Import ZArith NArith Bool List Arith. Import ListNotations.
-Require Import F64 Dec Types Generic Lang GenUnicode CaseModel.
+Require Import F64 Dec Types Generic Lang GenUnicode CaseModel Show.
 Inductive bres := BOk (v:value) | BErr (e:nerr) | BUnmodelled.
 Section B.
 Variable offset : nat.            (* STRING_OFFSET: 1 by default, 0 with zero_based_strings *)
@@ -130,7 +130,8 @@ Definition call_builtin (name:list N) (ps:list value) : bres :=
     match ps with [VArr l] => BOk (VArr (rev l)) | [VStr s] => BOk (VStr (rev s)) | [_] => ty | _ => cnt 1%N end
   (* sort *) else if is [115;111;114;116] then match ps with [VArr l] => BOk (VArr (sort_stable l)) | [_] => ty | _ => cnt 1%N end
   (* str *) else if is [115;116;114] then
-    match ps with [VBool b] => BOk (VStr (if b then str_true else str_false)) | [VStr s] => BOk (VStr s) | [_] => BUnmodelled | _ => cnt 1%N end
+    match ps with [VBool b] => BOk (VStr (if b then str_true else str_false)) | [VStr s] => BOk (VStr s)
+    | [VNum x] => match show_f64 x with Some t => BOk (VStr t) | None => BUnmodelled end | [_] => BUnmodelled | _ => cnt 1%N end
   (* unique *) else if is [117;110;105;113;117;101] then match ps with [VArr l] => BOk (VArr (uniq [] l)) | [_] => ty | _ => cnt 1%N end
   (* chr *) else if is [99;104;114] then
     match ps with
